@@ -263,6 +263,8 @@ class Run(RunBase):
             return len(ids) == len(op["keys"]) >= 2 and len(set(ids)) == len(ids) and \
                 not (set(ids) & set(self._net_ids())) and \
                 not any(o.obstacle_id in ids for o in sc.obstacles)
+        if k == "replace_lanelet":
+            return op["id"] in self._net_ids()
         if k == "remove_lanelet":
             # scenario-level removal only for lanelets the scenario knows about (added through it); network-level
             # removal only for lanelets added at network level (the id pool is C09's business, not ours)
@@ -728,6 +730,29 @@ class Run(RunBase):
         self._after([("network", None)])
         return r
 
+    def _op_replace_lanelet(self, op):
+        """A lanelet is exchanged for ANOTHER lanelet under its id with the documented deferred-index pattern:
+        remove_lanelet(id, rtree=False), then add_lanelet(new) - which has to index the new geometry although the
+        set and order of lanelet ids is what it was before."""
+        net = self.sc.lanelet_network
+        old = net.find_lanelet_by_id(op["id"])
+        c = old.center_vertices
+        self.ghosts = (getattr(self, "ghosts", []) + [[float(x) for x in (c[0] + c[1]) / 2]])[-6:]
+        d = np.array([op["dx"], op["dy"]], dtype=float)
+        new = Lanelet(left_vertices=old.left_vertices + d, center_vertices=old.center_vertices + d,
+                      right_vertices=old.right_vertices + d, lanelet_id=old.lanelet_id,
+                      predecessor=list(old.predecessor), successor=list(old.successor),
+                      adjacent_left=old.adj_left, adjacent_left_same_direction=old.adj_left_same_direction,
+                      adjacent_right=old.adj_right, adjacent_right_same_direction=old.adj_right_same_direction)
+
+        def f():
+            net.remove_lanelet(op["id"], rtree=False)
+            net.add_lanelet(new)
+        r = self._try("replace_lanelet[network,rtree=False+add]", f)
+        self.probe("lanelet-replaced-under-its-id")
+        self._after([("network", None)])
+        return r
+
     def _op_remove_lanelet(self, op):
         la0 = self.sc.lanelet_network.find_lanelet_by_id(op["id"])
         if la0 is not None:
@@ -1026,6 +1051,9 @@ def _mutator(rng, run, cfg):
         elif k == "add_batch":
             c = [key for key in sorted(run.pool) if run.enabled({"op": "add_lanelet", "key": key})]
             yield {"op": k, "keys": rng.sample(c, rng.randint(2, len(c)))} if len(c) >= 2 else None
+        elif k == "replace_lanelet" and net:
+            yield {"op": k, "id": rng.pick(net), "dx": rng.choice([-1, 1]) * rng.uniform(25, 70),
+                   "dy": rng.choice([-1, 1]) * rng.uniform(25, 70)}
         elif k == "remove_lanelet" and net:
             i = rng.pick(net)
             yield {"op": k, "id": i, "level": "scenario" if i in run.via_scenario else "network",
@@ -1077,7 +1105,7 @@ def _restarter(rng, run, cfg):
 QUERIES = ["q_occ", "q_state", "q_scn_occ", "q_scn_states", "q_poly", "q_dist", "q_pos", "q_shape", "q_light", "sweep"]
 MUTATORS = ["tr_scenario", "tr_network", "tr_obstacle", "tr_prediction", "tr_lanelet", "set_prediction",
             "update_prediction", "set_trajectory", "set_shape", "update_initial", "set_initial", "add_lanelet", "add_batch", "add_from_network",
-            "remove_lanelet",
+            "remove_lanelet", "replace_lanelet",
             "set_cycle", "set_offset", "replace_cycle"]
 
 
@@ -1104,6 +1132,8 @@ class C11(Property):
                        "cell:find_lanelet_by_position<-add_lanelet[batch,rtree=False..True]",
                        "cell:find_lanelet_by_position<-remove_lanelet[network]",
                        "cell:find_lanelet_by_position<-remove_lanelet[scenario]",
+                       "cell:find_lanelet_by_position<-replace_lanelet[network,rtree=False+add]",
+                       "lanelet-replaced-under-its-id",
                        "cell:lanelet.polygon<-translate_rotate[network]", "cell:lanelet.polygon<-translate_rotate[lanelet]",
                        "cell:lanelet.distance<-translate_rotate[lanelet]",
                        "cell:cycle.get_state_at_time_step<-cycle_elements=",
